@@ -52,7 +52,7 @@ func Profile() *world.Profile {
 	}
 	p.Ops = make([]int, world.NumOps)
 	for i, w := range map[int]int{world.OpYield: 2, world.OpWriteHeader: 2, world.OpWrite: 3, world.OpFlush: 1, world.OpNext: 5, world.OpNextSwallow: 1,
-		world.OpSetHeader: 1, world.OpStatus: 1, world.OpSeeSvc: 1, world.OpMapExtra: 1, world.OpSeeExtra: 1, world.OpSetCL: 1, world.OpSetCT: 1} {
+		world.OpSetHeader: 1, world.OpStatus: 1, world.OpSeeSvc: 1, world.OpMapExtra: 1, world.OpSeeExtra: 1, world.OpSetCL: 1, world.OpSetCT: 1, world.OpHijack: 1} {
 		p.Ops[i] = w
 	}
 	return p
@@ -190,7 +190,7 @@ func (Engine) Run(t *tape.Tape, o eng.Opts) *eng.Result {
 					tok := true
 					if e.A >= 0 {
 						k = world.PanicKindNames[e.A]
-						tok = e.A == world.PvString || e.A == world.PvError || e.A == world.PvStruct || e.A == world.PvWrapped || e.A == world.PvErrSlice || e.A == world.PvMap || e.A == world.PvEPIPE || e.A == world.PvConnReset || e.A == world.PvNotExist || e.A == world.PvFormatter || e.A == world.PvPublic
+						tok = e.A == world.PvString || e.A == world.PvError || e.A == world.PvStruct || e.A == world.PvWrapped || e.A == world.PvErrSlice || e.A == world.PvMap || e.A == world.PvEPIPE || e.A == world.PvConnReset || e.A == world.PvNotExist || e.A == world.PvFormatter || e.A == world.PvPublic || e.A == world.PvLineMapped
 					}
 					at := idxOf(int(e.H))
 					if e.A < 0 || at < 0 {
